@@ -235,5 +235,22 @@ Theorem times_64_exact : forall f s m e, wf_f32 f -> decode F32 f = FFin s m e -
 Proof. exact Mul64.fmul64_finite. Qed.
 Print Assumptions times_64_exact.
 
+(* the quantised value: the source's float64 computation floor(float64(c)*64 + 0.5), narrowed and divided by 64, is the
+   model's floor(c*64 + 1/2)/64 stated on exact integers -- for every low-resolution coordinate in [-128,128) of magnitude at
+   least 2^-35 (proofs/QuantBase.v, QuantEq.v: widening, times 64 and adding one half are exact there, from the soft-float's
+   rounding specification).  For smaller non-zero coordinates the float64 sum is not exact (both sides still give 0, which
+   is not proved); the two zeros are checked below. *)
+Theorem code_quantize : forall f, wf_f32 f -> fle F32 cm128 f = true -> flt F32 f c128 = true ->
+  2 ^ 114 <= Z.abs (ival32 f) ->
+  go_encode_Encoder_quantize false f = quantize false f.
+Proof. exact GenEqNum.go_quantize_eq. Qed.
+Print Assumptions code_quantize.
+
+Example ex_code_quantize_zeros :
+  go_encode_Encoder_quantize false 0 = quantize false 0 /\
+  go_encode_Encoder_quantize false 2147483648 = quantize false 2147483648 /\
+  go_encode_Encoder_quantize false 1036831949 (* 0.1 *) = quantize false 1036831949.
+Proof. vm_compute. repeat split; reflexivity. Qed.
+
 Example ex_code_natural : go_encode_buffer_encodeNatural [] 300 = [177; 4] /\ go_decode_buffer_decodeNatural [177; 4] = (300, 2).
 Proof. vm_compute. split; reflexivity. Qed.
